@@ -98,13 +98,21 @@ func H_ParseTokens() {
 
 var contexts = []string{
 	"f:[# TO 5]", "f:[1 TO #]", "f:{# TO #}", "f:(#)", "(#)", "(#) AND v", "v AND (#)",
-	"NOT #", "f:#", "f:>#", "v #", "# v", "#~2", "#^2", "f:[# TO *]", "-#", "+#", "f:>=#", "v OR #", "v~#", "v^#",
+	"NOT #", "f:#", "f:>#", "v #", "# v", "#~2", "#^2", "f:[# TO *]", "-#", "+#", "f:>=#", "v OR #", "v~#", "v^#", "f:(# OR #)", "f:(# OR # OR #)",
 }
 
 func init() { register("ParseCtx", H_ParseCtx) }
 
 // ctxInput fills every hole of the context with S shape slots.
+func ctxShapes() []shape {
+	if rtParam("SHAPES") == 1 {
+		return reducedShapes
+	}
+	return narrowShapes
+}
+
 func ctxInput(ctx string, s int) string {
+	shapes := ctxShapes()
 	var buf []byte
 	for i := 0; i < len(ctx); i++ {
 		if ctx[i] != '#' {
@@ -112,11 +120,11 @@ func ctxInput(ctx string, s int) string {
 			continue
 		}
 		for j := 0; j < s; j++ {
-			c := rtChoose("shape", len(narrowShapes))
+			c := rtChoose("shape", len(shapes))
 			if j > 0 {
 				buf = append(buf, ' ')
 			}
-			buf = shapeBytes(buf, narrowShapes[c])
+			buf = shapeBytes(buf, shapes[c])
 		}
 	}
 	return string(buf)
@@ -190,7 +198,7 @@ var ctxItems = [][]string{
 	{"f", ":", "[", "#", "TO", "5", "]"}, {"f", ":", "[", "1", "TO", "#", "]"}, {"f", ":", "{", "#", "TO", "#", "}"},
 	{"f", ":", "(", "#", ")"}, {"(", "#", ")"}, {"(", "#", ")", "AND", "v"}, {"v", "AND", "(", "#", ")"},
 	{"NOT", "#"}, {"f", ":", "#"}, {"f", ":", ">", "#"}, {"v", "#"}, {"#", "v"}, {"#", "~", "2"}, {"#", "^", "2"},
-	{"f", ":", "[", "#", "TO", "*", "]"}, {"-", "#"}, {"+", "#"}, {"f", ":", ">", "=", "#"}, {"v", "OR", "#"}, {"v", "~", "#"}, {"v", "^", "#"},
+	{"f", ":", "[", "#", "TO", "*", "]"}, {"-", "#"}, {"+", "#"}, {"f", ":", ">", "=", "#"}, {"v", "OR", "#"}, {"v", "~", "#"}, {"v", "^", "#"}, {"f", ":", "(", "#", "OR", "#", ")"}, {"f", ":", "(", "#", "OR", "#", "OR", "#", ")"},
 }
 
 func fixedTok(s string) dtok {
@@ -231,12 +239,12 @@ func H_DeriveCtx() {
 			continue
 		}
 		for j := 0; j < s; j++ {
-			c := rtChoose("shape", len(narrowShapes))
+			c := rtChoose("shape", len(ctxShapes()))
 			if j > 0 {
 				buf = append(buf, ' ')
 			}
 			var t dtok
-			buf, t = shapeTok(buf, narrowShapes[c])
+			buf, t = shapeTok(buf, ctxShapes()[c])
 			toks = append(toks, t)
 		}
 	}
@@ -251,3 +259,134 @@ func H_DeriveCtx() {
 	d := &deriver{t: toks, df: dfName(df)}
 	rtAssert("derivation", d.derives(e, 0, len(toks)))
 }
+
+func init() { register("ParseChain", H_ParseChain) }
+
+// H_ParseChain (C01, no-hang clause): concrete adversarial shapes of N operands; the path must
+// finish within the engine's instruction budget (an unwinding failure is replayed natively
+// under a time limit before it is reported).
+func H_ParseChain() {
+	n := rtParam("N")
+	shape := rtParam("SHAPE")
+	var buf []byte
+	for i := 0; i < n; i++ {
+		switch shape {
+		case 0:
+			if i > 0 {
+				buf = append(buf, " AND "...)
+			}
+			buf = append(buf, 'a', ':', byte('a'+i%26))
+		case 1:
+			if i > 0 {
+				buf = append(buf, " OR "...)
+			}
+			buf = append(buf, byte('a'+i%26))
+		case 2:
+			if i > 0 {
+				buf = append(buf, ' ')
+			}
+			buf = append(buf, byte('a'+i%26))
+		case 3:
+			buf = append(buf, "NOT "...)
+		case 4:
+			buf = append(buf, '(')
+		case 5:
+			buf = append(buf, '-', '(')
+		case 6:
+			if i > 0 {
+				buf = append(buf, " AND "...)
+			}
+			buf = append(buf, "a:[1 TO 5]^2"...)
+		case 7:
+			buf = append(buf, 'a', ':')
+		}
+	}
+	switch shape {
+	case 3, 7:
+		buf = append(buf, 'x')
+	case 4:
+		buf = append(buf, 'x')
+		for i := 0; i < n; i++ {
+			buf = append(buf, ')')
+		}
+	case 5:
+		buf = append(buf, 'x')
+		for i := 0; i < n; i++ {
+			buf = append(buf, ')')
+		}
+	}
+	in := string(buf)
+	rtObserve("in", in)
+	for df := 0; df <= 1; df++ {
+		e, err := parseOpt(in, df)
+		if err == nil && e != nil {
+			s := e.String()
+			rtObserveInt("len", len(s))
+			_, _ = pg.Render(e)
+			_, _, _ = pg.RenderParam(e)
+			_ = fmt.Sprintf("%#v", e)
+		}
+	}
+	rtReach("end")
+}
+
+func init() { register("LayoutTokens", H_LayoutTokens) }
+
+// H_LayoutTokens (C09, whitespace clause at token level): the same token sequence written with
+// one space between all tokens, with no space next to single-character symbols, and with wide
+// gaps (tab, newline, leading and trailing white space) has the same outcome and the same tree.
+func H_LayoutTokens() {
+	k := rtParam("K")
+	df := rtParam("DF")
+	var toks []dtok
+	var spaced, compact, wide []byte
+	wide = append(wide, '\n', ' ')
+	shapes := narrowShapes
+	if rtParam("SHAPES") == 1 {
+		shapes = reducedShapes
+	}
+	for i := 0; i < k; i++ {
+		c := rtChoose("shape", len(shapes))
+		var t dtok
+		var b []byte
+		b, t = shapeTok(nil, shapes[c])
+		if i > 0 {
+			spaced = append(spaced, ' ')
+			wide = append(wide, '\t', '\r', ' ')
+			// a space is optional next to a one-character symbol other than '-' (which may glue
+			// to a following digit or to a preceding word)
+			prev := toks[i-1]
+			glue := (prev.kind == tkSym && prev.sym != '-') || (t.kind == tkSym && t.sym != '-')
+			if !glue {
+				compact = append(compact, ' ')
+			}
+		}
+		spaced = append(spaced, b...)
+		compact = append(compact, b...)
+		wide = append(wide, b...)
+		toks = append(toks, t)
+	}
+	wide = append(wide, ' ', '\t')
+	rtObserve("spaced", string(spaced))
+	rtObserve("compact", string(compact))
+	e1, err1 := parseOpt(string(spaced), df)
+	e2, err2 := parseOpt(string(compact), df)
+	e3, err3 := parseOpt(string(wide), df)
+	rtAssert("compact-same-outcome", (err1 == nil) == (err2 == nil))
+	rtAssert("wide-same-outcome", (err1 == nil) == (err3 == nil))
+	if err1 != nil || e1 == nil {
+		rtReach("rejected")
+		return
+	}
+	g1 := fmt.Sprintf("%#v", e1)
+	if err2 == nil && e2 != nil {
+		rtAssert("compact-same-tree", g1 == fmt.Sprintf("%#v", e2))
+	}
+	if err3 == nil && e3 != nil {
+		rtAssert("wide-same-tree", g1 == fmt.Sprintf("%#v", e3))
+	}
+	rtReach("end")
+}
+
+// reducedShapes: one representative per token kind (deeper sequences stay affordable).
+var reducedShapes = []shape{narrowShapes[0], narrowShapes[1], narrowShapes[2], narrowShapes[3], narrowShapes[4], narrowShapes[5], narrowShapes[7], narrowShapes[12], narrowShapes[16]}
